@@ -169,7 +169,7 @@ def perturb(hr: _pyrandom.Random, pool: list[dict], focus: dict | None = None) -
     from maze_dataset import MazeDataset
     acts = []
     for _ in range(hr.randint(0, 12)):
-        a = hr.choice(["py", "np", "torch", "np_gen", "seed_py", "seed_np", "seed_torch", "generate", "from_config", "construct", "np_state", "failing_call"])
+        a = hr.choice(["py", "np", "torch", "np_gen", "seed_py", "seed_np", "seed_torch", "generate", "from_config", "construct", "np_state", "failing_call", "edit_views"])
         acts.append(a)
         if a == "py":
             for _ in range(hr.randint(1, 5)): random.random()
@@ -226,6 +226,19 @@ def perturb(hr: _pyrandom.Random, pool: list[dict], focus: dict | None = None) -
                     _copy.deepcopy(d0)
             except Exception:
                 pass
+        elif a == "edit_views":
+            # arrays the library hands out for a maze of the requested kind (all cells, the connected component, neighbour lists, the adjacency
+            # list) belong to the caller, who reorders and overwrites them in place
+            s0 = dict(focus if focus is not None else hr.choice(pool)); s0["seed"] = hr.randrange(10**6); s0["n_mazes"] = 2; s0.pop("applied_filters", None)
+            try:
+                for m in MazeDataset.generate(make_cfg(s0)).mazes:
+                    for f in (lambda: m.get_nodes(), lambda: m.get_connected_component(), lambda: m.get_coord_neighbors(np.array([0, 0])), lambda: m.as_adj_list(),
+                              lambda: m.coord_degrees()):
+                        try:
+                            v = f()
+                            if isinstance(v, np.ndarray) and v.size and v.flags.writeable: v[...] = v[::-1].copy(); v += 1
+                        except Exception: pass
+            except (ValueError, AssertionError): pass
         elif a == "np_state":
             np.random.set_state(np.random.RandomState(hr.randrange(10**6)).get_state())
     return acts
